@@ -1040,6 +1040,7 @@ class USBDataPacketDeserializer(Elaboratable):
 
                 # If this is the end of our packet, validate our CRC and finish.
                 with m.If(~self.utmi.rx_active):
+                    m.next = "IDLE"
 
                     with m.If(last_word_crc == last_word):
                         m.d.usb += [
@@ -1050,8 +1051,6 @@ class USBDataPacketDeserializer(Elaboratable):
 
                         for i in range(self._max_packet_size):
                             m.d.usb += self.packet[i].eq(active_packet[i]),
-
-                        m.next = "IDLE"
 
             # IRRELEVANT -- we've encountered a malformed or non-handshake packet
             with m.State("IRRELEVANT"):
